@@ -266,6 +266,22 @@ Section Frames.
   Qed.
 End Frames.
 
+(** ** stateless validation in front of the handlers *)
+Lemma deliver_ok P env s a s' : deliver P env s a = Ok s' -> exec P env s a = Ok s'.
+Proof. unfold deliver. destruct (msg_basic P a); [auto | discriminate]. Qed.
+
+Lemma deliver_not_ok P env s a : (forall s', exec P env s a <> Ok s') -> forall s', deliver P env s a <> Ok s'.
+Proof. intros H s' D. exact (H s' (deliver_ok _ _ _ _ _ D)). Qed.
+
+Lemma deliver_basic P env s a s' : deliver P env s a = Ok s' -> msg_basic P a = true.
+Proof. unfold deliver. destruct (msg_basic P a); [reflexivity | discriminate]. Qed.
+
+Lemma step_rejected P s env a : (forall s', exec P env s a <> Ok s') -> step P s (env, a) = (s, false).
+Proof.
+  intro H. unfold step. cbn [fst snd]. destruct (deliver P env s a) as [s'| |] eqn:D; try reflexivity.
+  exfalso. exact (H s' (deliver_ok _ _ _ _ _ D)).
+Qed.
+
 (** ** key hypotheses (proved for the concrete builders of host/keys.go in Proofs/PacketKeys.v) *)
 Definition valid_triple (P : params) (t : triple) : Prop :=
   valid_name P (fst (fst t)) = true /\ valid_name P (snd (fst t)) = true.
